@@ -51,7 +51,7 @@ VARIABLES base, faults
 CInit == /\ base \in Bases /\ faults = <<>>
          \* the package variables of Msi.tla are not used by this enumeration
          /\ schemas = << >> /\ tstream = << >> /\ pool = <<>> /\ cp = 0 /\ summary = 0 /\ dirty = 0 /\ dpool = 0
-         /\ dsum = 0 /\ ustreams = << >> /\ sess = "closed" /\ ptype = "" /\ ro = FALSE /\ hist = 0
+         /\ dsum = 0 /\ ustreams = << >> /\ sess = "closed" /\ ptype = "" /\ ro = FALSE /\ msync = TRUE /\ hist = 0
 CNext == /\ faults = <<>>
          /\ LET img == BuildImage(Dbs[base.db], base.c) IN
             \/ \E s \in Singles(base, img) : faults' = <<s>>
